@@ -6,9 +6,10 @@ package kcp
 import "time"
 
 // VerifSchedTake removes and returns the tasks submitted to ts by Put that its first stage
-// has not consumed yet.  On a closed scheduler (its goroutines have exited, Put still
-// appends) this is every task submitted since the last call, which lets the harness own the
-// pending-callback queue: it sees each re-Put of a session's update and runs it by hand.
+// has not consumed yet.  On the zero value &TimedSched{} (no goroutines, nil channels: Put only
+// appends under the mutex) this is every task submitted since the last call, which lets the
+// harness own the pending-callback queue: it sees each re-Put of a session's update and runs
+// it by hand.
 func VerifSchedTake(ts *TimedSched) (fs []func(), at []time.Time) {
 	ts.prependLock.Lock()
 	defer ts.prependLock.Unlock()
